@@ -79,6 +79,9 @@ func driveOps(c *Ctx) error {
 		if rel == "unmark" {
 			ev["a2"] = pa2
 		}
+		if rel == "weak" && digestOf(any(bj)) != digestOf(any(pb)) {
+			ev["bq"] = bj // the weakened operands as requested, where the library built something else from the same statements
+		}
 		if rel == "weak" {
 			// purity of the weakened run: distinct outcomes over repeated identical calls
 			seen := map[string]bool{}
